@@ -270,7 +270,9 @@ fn cbor_splices() -> Vec<Vec<u8>> {
     }
     // deep nesting
     v.push(vec![0x81; 300]);
+    v.push(vec![0x81; 3000]);
     v.push(vec![0x81; 100_000]);
+    v.push((0..40_000).flat_map(|_| [0xa1u8, 0x00]).collect());
     v.push((0..300).flat_map(|_| [0xa1u8, 0x00]).collect());
     v.push(vec![0xc1; 300]);
     v.push(vec![0x9f; 300]);
@@ -374,7 +376,7 @@ fn devs_for(seed_len: usize, kind: Kind, nsplice: usize, tier: Tier, overwrites:
         if p % stride == 0 {
             for s in 0..nsplice {
                 v.push(Dev::Splice(p, s));
-                if kind != Kind::Cbor || s % 3 == 0 {
+                if !matches!(kind, Kind::Cbor | Kind::Binary) || s % 3 == 0 {
                     v.push(Dev::Insert(p, s));
                 }
             }
@@ -440,8 +442,8 @@ impl Space {
             }
             for (si, s) in seeds[di].iter().enumerate() {
                 let nsp = match d.kind {
-                    Kind::Cbor => cbor_sp.len(),
-                    Kind::Binary => 0,
+                    // binary layouts embed CBOR items (authenticator data: COSE key, extension map)
+                    Kind::Cbor | Kind::Binary => cbor_sp.len(),
                     Kind::Json => json_sp.len(),
                     Kind::Text => text_sp.len(),
                 };
@@ -473,10 +475,9 @@ impl Space {
     }
     fn splices(&self, kind: Kind) -> &[Vec<u8>] {
         match kind {
-            Kind::Cbor => &self.cbor_sp,
+            Kind::Cbor | Kind::Binary => &self.cbor_sp,
             Kind::Json => &self.json_sp,
             Kind::Text => &self.text_sp,
-            Kind::Binary => &[],
         }
     }
     /// (decoder index, input bytes, description of how it was derived)
@@ -1225,7 +1226,7 @@ pub fn run(ctx: &Ctx) -> Result<Run, String> {
     let ndec = sp.decs.len();
     let mut run = Run::from_stats(
         "exploration",
-        "for each of 28 public decoders (CTAP2 CBOR messages, authenticator data, WebAuthn JSON, base64, U2F raw messages, COSE-key converter, fingerprints, asset links, RP-ID verification, public-suffix lookups): (1) all byte strings up to length 2 (3 thorough) / all strings over an 8-symbol alphabet up to length 5 (7 thorough); (2) every single deviation of valid seed encodings of every message type: truncation at every position, every byte value at every position (CBOR/binary; a 17-symbol menu for JSON/text), and splices at every position of CBOR heads of every major type with declared lengths 2^8..2^64-1 / indefinite, 300- and 100000-deep nesting, JSON structure/number/escape fragments, long and dotted labels, and length-preserving overwrites by the 2..4-byte fragments (a multi-byte character in the place of two digits) (thorough: all pairs of byte-level deviations on short seeds); run in isolated worker processes with a counting allocator (single request > 4 MiB + 32 x input length, or > 256 MiB in total = out of proportion; > 1 GiB refused), 8 MiB stack, per-case watchdog; (2c) well-formed base64 / base64url text, padded or not, of every decoded length 0..4200 (thorough 20000) through Bytes::try_from, try_from_base64url and a JSON Bytes member (must decode to the bytes; no panic at any size boundary); (2g) an RP-ID verifier whose user-supplied suffix provider panicked once (unwind caught, or on a thread that died) answers five further RP IDs without panicking and as before; (2f) allow / exclude lists that are every sequence over three ids of length 0..5 (thorough 6), with mixed transports hints, through the JSON option parsers (text and owned value) and the CBOR request decoders; (2e) every name derived from a rule of the shipped list (as-is, wildcard instantiations, parent, sibling, 1..12 further labels in front) through the three lookups and the RP-ID verifier; (2d) key kinds: for the richest seed of every CBOR decoder and every map in it (top level and nested), and for authenticator data with ED resp. AT+ED, every ordered pair of added keys from 19 kinds (small/large/negative integers, text, bytes, floats incl. NaN, -0.0 and infinity, booleans, null, empty array, empty map, tag), in front and at the end - well-formed input, the decoder must return; (2b) COSE keys built as structs (0..2 entries per coordinate from a menu of lengths and types, three label orders, repeated labels included) given to the converter directly; (4) scaling families: 14 well-formed message shapes whose collection (PRF per-credential map, allow/exclude list, parameter list, unknown members, COSE parameters, JSON lists and maps, base64 text) grows to 256, 1024, 4096, 16384 (thorough: 65536) elements, with ids/keys that differ only at the front, only at the end or only in the middle, decoded in isolated workers: 4x the elements may not cost more than 9x the CPU time (judged once the larger run exceeds 10 ms, confirmed by a second measurement) nor an allocation out of proportion; (3b) CTAPHID with 1..300 (4096) channels transmitting at once; (3) CTAPHID: BFS over packet sequences on the real ChannelHandler (alphabet: 2 channels x 8 init heads + 4 continuation sequence numbers x 13 packet sizes), deduplicated on the hook snapshot. Non-trivial = distinct non-empty input",
+        "for each of 28 public decoders (CTAP2 CBOR messages, authenticator data, WebAuthn JSON, base64, U2F raw messages, COSE-key converter, fingerprints, asset links, RP-ID verification, public-suffix lookups): (1) all byte strings up to length 2 (3 thorough) / all strings over an 8-symbol alphabet up to length 5 (7 thorough); (2) every single deviation of valid seed encodings of every message type: truncation at every position, every byte value at every position (CBOR/binary; a 17-symbol menu for JSON/text), and splices at every position of CBOR heads of every major type with declared lengths 2^8..2^64-1 / indefinite, 300-, 3000- and 100000-deep nesting (binary layouts that embed CBOR items included), JSON structure/number/escape fragments, long and dotted labels, and length-preserving overwrites by the 2..4-byte fragments (a multi-byte character in the place of two digits) (thorough: all pairs of byte-level deviations on short seeds); run in isolated worker processes with a counting allocator (single request > 4 MiB + 32 x input length, or > 256 MiB in total = out of proportion; > 1 GiB refused), 8 MiB stack, per-case watchdog; (2c) well-formed base64 / base64url text, padded or not, of every decoded length 0..4200 (thorough 20000) through Bytes::try_from, try_from_base64url and a JSON Bytes member (must decode to the bytes; no panic at any size boundary); (2g) an RP-ID verifier whose user-supplied suffix provider panicked once (unwind caught, or on a thread that died) answers five further RP IDs without panicking and as before; (2f) allow / exclude lists that are every sequence over three ids of length 0..5 (thorough 6), with mixed transports hints, through the JSON option parsers (text and owned value) and the CBOR request decoders; (2e) every name derived from a rule of the shipped list (as-is, wildcard instantiations, parent, sibling, 1..12 further labels in front) through the three lookups and the RP-ID verifier; (2d) key kinds: for the richest seed of every CBOR decoder and every map in it (top level and nested), and for authenticator data with ED resp. AT+ED, every ordered pair of added keys from 19 kinds (small/large/negative integers, text, bytes, floats incl. NaN, -0.0 and infinity, booleans, null, empty array, empty map, tag), in front and at the end - well-formed input, the decoder must return; (2b) COSE keys built as structs (0..2 entries per coordinate from a menu of lengths and types, three label orders, repeated labels included) given to the converter directly; (4) scaling families: 14 well-formed message shapes whose collection (PRF per-credential map, allow/exclude list, parameter list, unknown members, COSE parameters, JSON lists and maps, base64 text) grows to 256, 1024, 4096, 16384 (thorough: 65536) elements, with ids/keys that differ only at the front, only at the end or only in the middle, decoded in isolated workers: 4x the elements may not cost more than 9x the CPU time (judged once the larger run exceeds 10 ms, confirmed by a second measurement) nor an allocation out of proportion; (3b) CTAPHID with 1..300 (4096) channels transmitting at once; (3) CTAPHID: BFS over packet sequences on the real ChannelHandler (alphabet: 2 channels x 8 init heads + 4 continuation sequence numbers x 13 packet sizes), deduplicated on the hook snapshot. Non-trivial = distinct non-empty input",
         true,
         stats,
     );
